@@ -62,11 +62,20 @@ func init() {
 	props["C14"] = &propRunner{gen: genC14, rule: "histories of 1-6 requests through ONE BodyLimit instance (pooled reader reuse); non-trivial = history in which some body is longer than L and is read past the limit, or an injected underlying error occurs; distinct by (L, per-request length class, chunking, read sizes)"}
 }
 
+var c14Echo = echo.New()
+
 func genC14(rng *rand.Rand, n int, emit func(Case), dist map[string]int) {
 	for it := 0; it < n; it++ {
 		lim := []int{0, 1, 2, 5, 8, 16, 33, 100}[rng.Intn(8)]
 		mw := middleware.BodyLimit(c14Limit(lim))
-		e := echo.New()
+		if rng.Intn(4) == 0 {
+			// a second, more generous instance closer to the handler (application-wide limit + route-level limit):
+			// the stricter outer one still bounds what the handler can read
+			outer, inner := mw, middleware.BodyLimit(c14Limit(4*lim+50))
+			mw = func(next echo.HandlerFunc) echo.HandlerFunc { return outer(inner(next)) }
+			dist["stacked_instances"]++
+		}
+		e := c14Echo
 		nreq := 1 + rng.Intn(6)
 		var inReqs, outReqs []Sx
 		ok := true
@@ -163,7 +172,7 @@ func genC14(rng *rand.Rand, n int, emit func(Case), dist map[string]int) {
 			req.Body = body
 			req.ContentLength = declared
 			rec := httptest.NewRecorder()
-			c := e.NewContext(req, rec)
+			c := recycledContext(e, req, rec)
 			err := mw(h)(c)
 			rejected := false
 			if err != nil {
